@@ -12,7 +12,7 @@ from specs import mapspec_ref as ref
 from vf.bounded import Check
 
 ID = "C12"
-LEVEL = "exploration"
+LEVEL = "other"
 LEVEL_TEXT = ("Bounded contract checking by single-fault mutation: every valid generated case (call-level DAGs and map "
               "programs) is subjected to each fault class the statement lists; the construction or the start of "
               "run/map must raise, no user function may have been invoked, and a run folder populated by a previous "
@@ -32,11 +32,22 @@ ASSUMPTIONS = []
 
 
 def registry():
-    return {}
+    from contracts import misc
+    return {c.short: c for c in misc.ALL}
+
+
+def _vuo_gen(rng, tier):
+    names = ("a", "b", ("a", "b"), ("c", "d"), ("b", "c"))
+    for out in names:
+        for k in range(0, 3):
+            for keys in __import__("itertools").combinations(names, k):
+                yield {"output_name": out, "output_to_func": {kk: f"F{n}" for n, kk in enumerate(keys)}}
 
 
 def proof_items():
-    return []
+    from contracts import misc
+    from vf.driver import ProofItem
+    return [ProofItem(misc.validate_unique_output_names, gen=_vuo_gen)]
 
 
 # ---- construction-level faults on call-level DAGs --------------------------------------------------------------
